@@ -37,7 +37,7 @@ impl Model {
     }
     /// inclusive on both ends, a < b
     pub fn is_range_free(&self, a: usize, b: usize) -> bool {
-        (a..=b).all(|k| self.is_position_free(k))
+        (a..=b.min(self.buf.len())).all(|k| self.is_position_free(k))
     }
     pub fn put(&mut self, d: &[u8]) -> bool {
         if self.frozen {
